@@ -605,6 +605,9 @@ def _view_leader(env, nr):
     return d
 
 
+# the ghost logs of the header table are objects of their own (they exist only in the proof)
+LOG_DISTINCT = ("headers.log_k is not raw and headers.log_v is not raw and headers.log_k is not headers.log_v and "
+                "headers.log_k is not raw0 and headers.log_v is not raw0")
 HAS = "pstar < len(raw0)"
 SAMEH = "hdr_count(headers) == old(hdr_count(headers))"
 CONSUMED = "is_slice(raw, raw0, pstar + eol_len_at(raw0, pstar, len(raw0), eols), len(raw0))"
@@ -630,6 +633,7 @@ LEADER_RAISES["HTTPException"] = ["hdr_size(headers) > MAX_HEADERS"]
 
 contract(F, "parseLeader", "C29", tags=("step2", "logic=AUFLIA"),
          params=dict(raw=BA, headers=Ref("lodict")), setup=_seq(_line_ghosts(), _bytearray_kind("raw")),
+         assumes=[LOG_DISTINCT],
          modifies=["raw[*]", "headers.log_k[*]", "headers.log_v[*]", "headers.n"],
          ensures=LEADER_ENSURES, raises=LEADER_RAISES,
          replay=dict(make=_mk_leader, call=_call_leader, view=_view_leader, count=500),
